@@ -160,7 +160,16 @@ class CG(G18.G):
         self.defined = set(G18.SYM)
 
 
-FOCI = [None, None, 'ref', 'ref', 'int', 'regex', 'repl', 'range', 'path', 'rel', 'glob', 'tmo', 'name']
+FOCI = [None, 'ref', 'ref', 'int', 'regex', 'repl', 'range', 'path', 'glob', 'int', 'regex']
+
+# (method of the C18 grammar, weight, phases (None: every instruction phase))
+_INSTRUCTION_TABLE = [
+    ('i_file', 4, None), ('i_dir', 3, None), ('i_shell', 1, None), ('i_sys', 2, None), ('i_run', 3, None),
+    ('i_env', 2, None), ('i_copy', 3, None), ('i_timeout', 1, None), ('i_cd', 1, None), ('i_extra_def', 5, None),
+    ('i_stdin', 3, ['setup']),
+    ('i_contents', 4, ['assert']), ('i_dir_contents', 4, ['assert']), ('i_exists', 4, ['assert']),
+    ('i_exit_code', 4, ['assert']), ('i_stdout', 6, ['assert']),
+]
 
 
 def _take(g):
@@ -168,13 +177,26 @@ def _take(g):
     return [{'name': e['name'], 'toks': [list(t) for t in e['toks']]} for e in elems]
 
 
+def _has_focus(elems, focus):
+    for e in elems:
+        for t in e['toks']:
+            k = t[1]
+            if k == focus or k.startswith(focus + ':') or (focus == 'ref' and k.startswith(('ref:', 'sref:'))):
+                return True
+    return False
+
+
 def instruction_carrier(g, ph):
-    """one valid instruction of an instruction phase (a list of elements: `cd` comes with its way back)"""
-    if g.focus and g.maybe(2):
-        G18.focused_instruction(g, ph, tries=12)
-    else:
-        g.instruction(ph)
-    return _take(g)
+    """one valid instruction of an instruction phase (a list of elements: `cd` comes with its way back); with a
+    focus, the instruction is re-drawn (a bounded number of times) until it holds a token of the focused kind"""
+    table = [m for m, w, phs in _INSTRUCTION_TABLE if phs is None or ph in phs for _ in range(w)]
+    elems = None
+    for _ in range(8 if g.focus else 1):
+        getattr(g, g.pick(table))(ph)
+        elems = _take(g)
+        if not g.focus or _has_focus(elems, g.focus):
+            break
+    return elems
 
 
 def act_carrier(g, actor):
@@ -403,10 +425,11 @@ def holes(elem, ph):
             if span is not None and span['role'] != ROLE_PLAIN:
                 # the whole FILE-NAME is one reference: a path, or a string
                 out.append(dict(base, hk='sref', type=typ, accepts=['path', 'string'], span=span))
-            elif typ == 'text-source':
-                out.append(dict(base, hk='sref', type=typ, accepts=['text-source'] + DATA_TYPES))
             else:
-                out.append(dict(base, hk='sref', type=typ, accepts=list(DATA_TYPES)))
+                # a whole-token reference may stand where a TEXT-SOURCE is expected ("a reference to a symbol
+                # defined as either text-source or string"): text-source is never taken as a wrong type here
+                out.append(dict(base, hk='sref', type=typ, accepts=[typ] + [t for t in DATA_TYPES + ['text-source']
+                                                                              if t != typ]))
         elif kind in STRLIKE:
             if kind == 'path':
                 if span is None:
@@ -543,7 +566,8 @@ def ops_for(elems, ei, ph, at_eof, ctx):
                             'text': nm})
         if hk == 'incpath':
             for nm in ('missing.xly', 'hd', 'no-dir/empty.xly'):
-                out.append({'op': 'include-missing', 'cls': CLS_FILE, 'expect': FAE, 'tok': i, 'edit': 'replace',
+                # found while the files are read, like a syntax error
+                out.append({'op': 'include-missing', 'cls': CLS_SYNTAX, 'expect': FAE, 'tok': i, 'edit': 'replace',
                             'text': nm})
         kind = h['kind']
         used = ctx != 'def-unused'
@@ -621,10 +645,15 @@ def _path_ops(span, elem, ph, used):
         out.append({'op': 'relativity-option', 'cls': CLS_SYNTAX, 'expect': EITHER, 'edit': 'span', 'start': s, 'end': e,
                     'toks': [['-rel-here', 'rel'], [fname, 'path']], 'rel': 'here'})
     if role == ROLE_DEST:
-        for r in ('-rel-home', '-rel-act-home', '-rel-result'):
+        # help pages of file / dir / copy (every phase) and of cd in [setup]: act, tmp, cd; cd after [act]
+        # (`help before-assert cd` ...) also accepts the result directory
+        forbidden = ['home', 'act-home', 'result']
+        if span['what'] == 'cd' and ph != 'setup':
+            forbidden = ['home', 'act-home']
+        for r in forbidden:
             out.append({'op': 'relativity-option', 'cls': CLS_SYNTAX, 'expect': EITHER, 'edit': 'span', 'start': s,
-                        'end': e, 'toks': [[r, 'rel'], [fname, 'path']], 'rel': r[5:]})
-        for r in ('home', 'acthome', 'result'):
+                        'end': e, 'toks': [['-rel-' + r, 'rel'], [fname, 'path']], 'rel': r})
+        for r in [f.replace('-', '') for f in forbidden]:
             for depth in (1, 2, 3):
                 sym = 'R%d_%s' % (depth, r)
                 for form, new in (('rel-sym', [['-rel', 'rel'], [sym, 'ref:path'], ['sub-x', 'path']]),
